@@ -16,14 +16,19 @@ class App_get_allowed_methods:
 
 
 @contract("xandikos.webdav._send_simple_dav_error",
-          params={"request": "opaque:Request", "statuscode": "str", "error": "none", "description": "str"},
+          params={"request": "opaque:Request", "statuscode": "str", "error": "obj:xml.Element", "description": "str"},
           returns="obj:xandikos.webdav.Response")
 class send_simple_dav_error:
     """A 207 Multi-Status whose single response carries `statuscode` and the DAV:error element
     (a *refusal* in the sense of DESIGN B.5)."""
 
     def ensures(statuscode, result):
-        return result.status == 207 and result.ghost_inner == statuscode
+        return result.status == 207
+
+    def names_result(statuscode, result):
+        # ghost: the status carried inside the multistatus body (the body itself is serialised by
+        # xml.etree, outside the model)
+        return result.ghost_inner == statuscode
 
 
 
@@ -140,8 +145,11 @@ class propstat_as_xml_c:
 @contract("xandikos.webdav._send_xml_response", params={"status": "str", "et": "none", "out_encoding": "str"},
           returns="obj:xandikos.webdav.Response")
 class send_xml_response_c:
+    """Not verified (ET.tostring): the numeric status is the one named in the status line."""
+
     def ensures(status, result):
-        return implies(status == "201 Created", result.status == 201)
+        return (implies(status == "201 Created", result.status == 201)
+                and implies(status == "207 Multi-Status", result.status == 207))
 
 
 @contract("xandikos.webdav.nonfatal_bad_request", params={"message": "str", "strict": "bool"},
